@@ -92,6 +92,9 @@ def _val(draw, var, cls, depth, names, ctr, outer=()):
         if draw(st.booleans()):
             # an element picked out of the typed sequence by a constant index (also a negative one) is an object of the element class
             return ["site", ["idx", src, draw(st.sampled_from([0, 1, -1, -2]))], child, _scalar_of(draw, child), mark()]
+        if draw(st.integers(0, 3)) == 0:
+            # the receiver is the RESULT of a lambda that is called where it is written: an object of the class of what it returns
+            return ["site", ["calledobj", v2, ["first", src]], child, _scalar_of(draw, child), mark()]
         return ["site", ["first", src], child, _scalar_of(draw, child), mark()]
     if c == 6:
         if draw(st.booleans()):
@@ -228,6 +231,8 @@ def render(ir, cbs, mode):
         return f"({R(ir[2])} {ir[1]} {R(ir[3])})"
     if k == "called":
         return f"(lambda {ir[1]}, *, z_=0: {R(ir[3])})({R(ir[2])})"
+    if k == "calledobj":
+        return f"(lambda {ir[1]}, *, z_=0: {ir[1]})({R(ir[2])})"
     if k == "tup":
         return "(" + ", ".join(R(x) for x in ir[1]) + ("," if len(ir[1]) == 1 else "") + ")"
     if k == "dict":
@@ -260,6 +265,8 @@ def sites_of(ir, depth=0, root_of_lambda=False):
     elif k == "called":
         yield from sites_of(ir[2], depth)
         yield from sites_of(ir[3], depth + 1)
+    elif k == "calledobj":
+        yield from sites_of(ir[2], depth)
     elif k == "wrap":
         yield from sites_of(ir[3], depth)
     elif k == "bin":
